@@ -444,6 +444,11 @@ def _num(x):
     return x
 
 
+def _ists(*xs):
+    import pandas as pd
+    return any(isinstance(x, pd.Timestamp) for x in xs)
+
+
 def EQ(a, b, scale=0.0):
     if isinstance(a, (SymKey,)) or isinstance(b, (SymKey,)):
         return liftk(a) == liftk(b)
@@ -453,6 +458,8 @@ def EQ(a, b, scale=0.0):
         return a == b
     if a is None or b is None:
         return a is b
+    if _ists(a, b):
+        return _num(a) == _num(b)          # instants are compared exactly
     return _close(_num(a), _num(b), scale)
 
 
@@ -463,6 +470,8 @@ def NE(a, b):
 def LE(a, b):
     if _anysym(a, b):
         return lift(a) <= lift(b)
+    if _ists(a, b):
+        return _num(a) <= _num(b)
     a, b = float(_num(a)), float(_num(b))
     return a <= b or _close(a, b)
 
@@ -470,6 +479,8 @@ def LE(a, b):
 def LT(a, b):
     if _anysym(a, b):
         return lift(a) < lift(b)
+    if _ists(a, b):
+        return _num(a) < _num(b)
     a, b = float(_num(a)), float(_num(b))
     return a < b and not _close(a, b)
 
